@@ -1,10 +1,18 @@
 P = {
     'id': 'C12',
+    'design_ref': 'DESIGN.md section 5 (C12), section 6 (F2)',
+    'level_text': 'Coq theorems over all message histories (any accounts incl. sender = recipient, any ratios/amounts, malformed '
+                  'coins): sum of shares = recorded total = module balance, exact holder index, exact effect of fund and of the '
+                  'three transfer kinds, failed message has no effect; the model is the executable Gallina transcription of '
+                  'x/ucdao keeper + msg server and is compared with the real message router on generated histories on every run',
+    'level_note': 'trusted: Coq kernel + vm_compute, std++; the hand-written model (tied to /repo only by the sampled correspondence run); '
+                  'bank SendCoinsFromAccountToModule, baseapp atomicity, store/codec are modelled not verified; no axioms',
+    'technique': 'Coq proof (invariant by induction over message histories) + differential correspondence against the real msg server',
     'drivers': [
         {'name': 'dao', 'n': {'quick': 300, 'thorough': 12000}, 'shrink_field': 'ops', 'batch': 3000},
     ],
     'coq_header': 'From HV Require Import Dao.LedgerModel.\nFrom Coq Require Import ZArith NArith List.\nImport ListNotations.',
-    'lists': {'cases': {'type': 'list (op * obs)', 'check': 'mismatches true', 'shard': 250}},
+    'lists': {'cases': {'type': 'list (op * obs)', 'check': 'mismatches true', 'shard': 30}},
     'search': {'rounds': 4, 'n': 1500},
     'rule': 'a case is a history of 6-15 messages (mint/enable/fund/transfer-all/-ratio/-amount over 4 accounts and 4 '
             'denominations, sender = recipient in 1/4 of transfers, ~6% malformed coins) run through the application '
